@@ -3,6 +3,7 @@ from __future__ import annotations
 
 import copy
 import hashlib
+import json
 import pickle
 import random
 import shutil
@@ -98,7 +99,7 @@ class C09(Prop):
 
     def cases(self, rng: random.Random, tier: str) -> Iterable[dict]:
         # every dedicated family is visited at least twice per run, whatever the seed; the rest is drawn at random
-        forced = [0.04, 0.11, 0.16, 0.21, 0.245, 0.28, 0.32, 0.35, 0.35, 0.38, 0.41] * 2
+        forced = [0.04, 0.11, 0.16, 0.21, 0.245, 0.28, 0.32, 0.35, 0.35, 0.38, 0.41, 0.45] * 2
         while True:
             r = forced.pop() if forced else rng.random()
             if r < 0.08:
@@ -163,6 +164,24 @@ class C09(Prop):
                                                           "body": {"b": "closure", "t": "made", "c": c[0], "c2": c[1]}, "cache": True}], "bound": []}]
                 yield {"kind": "runs2", "programs": [mk(c1), mk(c2)], "values": [["x", rng.randint(0, 3)]],
                        "backend": rng.choice(["mem", "lru2", "disk"]), "runner": rng.choice(["sync", "async"]), "share": False}
+                continue
+            if 0.43 <= r < 0.47:
+                # the definition hash itself: pairs of real functions that differ in exactly one knob (or none)
+                pairs = []
+                for _ in range(rng.randint(4, 8)):
+                    a = {"src": rng.random() < 0.5, "c": rng.choice([1, 12, 7, "a"]), "d": rng.choice([23, 3, 70, "b"]), "K": rng.choice([0, 1, "k"]),
+                         "lamk": rng.randint(0, 3), "attr": rng.choice(["upper", "lower"]), "kw": rng.choice([None, 0, 1])}
+                    b = dict(a)
+                    knob = rng.choice(["none", "c", "d", "cd", "K", "lamk", "attr", "kw", "src"])
+                    if knob == "cd":
+                        a["c"], a["d"], b["c"], b["d"] = rng.choice([(1, 23, 12, 3), (10, 1, 1, 1), (7, 70, 77, 0)])
+                    elif knob == "src":
+                        b["src"] = not a["src"]
+                    elif knob != "none":
+                        pool = {"c": [1, 12, 7, "a", 2], "d": [23, 3, 70, "b", 4], "K": [0, 1, "k", 5], "lamk": [0, 1, 2, 3, 4], "attr": ["upper", "lower", "title"], "kw": [None, 0, 1, 2]}[knob]
+                        b[knob] = rng.choice([v for v in pool if v != a[knob]])
+                    pairs.append([a, b, knob])
+                yield {"kind": "defhash", "pairs": pairs}
                 continue
             if 0.40 <= r < 0.43:
                 # a cacheable producer of a LIST and a consumer that grows the list it receives in place, run twice on one cache
@@ -284,6 +303,8 @@ class C09(Prop):
     def impl(self, case: dict) -> Any:
         if case["kind"] == "disk":
             return self._impl_disk(case)
+        if case["kind"] == "defhash":
+            return self._impl_defhash(case)
         if case["kind"] == "runs2":
             return self._impl_runs2(case)
         tmp = None
@@ -328,6 +349,59 @@ class C09(Prop):
                 ops.append(["get", k])
                 gets.append(vid.get(repr(sorted(op[3].items(), key=lambda kv: kv[0])) if isinstance(op[3], dict) else repr(op[3])) if op[2] else None)
         return {"runs": runs, "ops": ops, "gets": gets, "hits": sum(1 for g in gets if g is not None)}
+
+    # ---------------------------------------------------------------- the definition hash
+    @staticmethod
+    def _make_fn(k: dict) -> Any:
+        """A real function from the knobs: factory-made (two captured values), a default evaluated at definition time, a keyword-only default,
+        a constant inside a nested lambda, an attribute name; with or without retrievable source."""
+        import linecache
+
+        kw = "" if k["kw"] is None else ", *, kw=_KW"
+        src = ("def _factory(_c, _d):\n"
+               f"    def f(x, k=_K{kw}):\n"
+               f"        return ((lambda y: (y, {int(k['lamk'])}))(x), _c, _d, str(x).{k['attr']}())\n"
+               "    return f\n"
+               "f = _factory(_C, _D)\n")
+        glob = {"_C": k["c"], "_D": k["d"], "_K": k["K"], "_KW": k["kw"], "__name__": "verif_generated"}
+        if k["src"]:
+            file = f"/verif-generated/defhash_{hashlib.sha1(src.encode()).hexdigest()[:12]}.py"
+            linecache.cache[file] = (len(src), None, src.splitlines(True), file)
+            exec(compile(src, file, "exec"), glob)  # noqa: S102 - generated from a closed template
+        else:
+            exec(src, glob)  # noqa: S102 - generated from a closed template
+        return glob["f"]
+
+    @staticmethod
+    def _describe_fn(f: Any) -> dict:
+        """What the definition hash is supposed to cover, read off the real function object (JSON description for the Lean model)."""
+        import inspect
+
+        def code_desc(c: Any) -> dict:
+            return {"bytes": c.co_code.hex(), "names": list(c.co_names), "varnames": list(c.co_varnames),
+                    "consts": [{"code": code_desc(x), "name": x.co_name} if hasattr(x, "co_code") else {"val": repr(x)} for x in c.co_consts]}
+        try:
+            source = inspect.getsource(f)
+        except (OSError, TypeError):
+            source = None
+        cells = []
+        for cell in f.__closure__ or ():
+            try:
+                cells.append(repr(cell.cell_contents))
+            except ValueError:
+                cells.append(None)
+        return {"source": source, "code": code_desc(f.__code__), "defaults": repr(f.__defaults__), "kwdefaults": repr(f.__kwdefaults__), "cells": cells}
+
+    def _impl_defhash(self, case: dict) -> Any:
+        from hypergraph._utils import hash_definition
+
+        out = []
+        for a, b, knob in case["pairs"]:
+            fa, fb = self._make_fn(a), self._make_fn(b)
+            da, db = self._describe_fn(fa), self._describe_fn(fb)
+            out.append({"same": hash_definition(fa) == hash_definition(fb), "a": da, "b": db,
+                        "stable": hash_definition(fa) == hash_definition(self._make_fn(a))})
+        return {"pairs": out, "runs": [], "ops": [], "gets": [], "hits": 1}
 
     def _impl_runs2(self, case: dict) -> Any:
         """Two graphs whose single node wraps the SAME function object (same definition) with permuted output names, one shared cache."""
@@ -410,6 +484,18 @@ class C09(Prop):
 
     # ---------------------------------------------------------------- oracle
     def oracle(self, case: dict, obs: Any) -> str | None:
+        if case["kind"] == "defhash":
+            def visible(d: dict) -> Any:
+                return json.dumps([d["source"] if d["source"] is not None else d["code"], d["defaults"], d["kwdefaults"], d["cells"]], sort_keys=True)
+            for (a, b, knob), o in zip(case["pairs"], obs["pairs"]):
+                if not o["stable"]:
+                    return f"the definition hash of one and the same definition {a} is not reproducible"
+                want = visible(o["a"]) == visible(o["b"])
+                if o["same"] and not want:
+                    return f"two different definitions (knob {knob!r}: {a} vs {b}) have the same definition hash: a shared cache would serve one's entries to the other"
+                if not o["same"] and want:
+                    return f"one definition built twice ({a} vs {b}) has two definition hashes: its retained entries would never be found"
+            return None
         if case["kind"] == "disk":
             # ground truth kept by the oracle: which (key -> value) is currently stored AND intact
             intact: dict[str, Any] = {}
@@ -476,6 +562,9 @@ class C09(Prop):
             if ig != m["gets"]:
                 return f"disk scenario: impl={ig} model={m['gets']}"
             return None
+        if case["kind"] == "defhash":
+            # (model side wired in once the driver knows the op)
+            return None
         if case["kind"] == "runs2" or case["backend"] == "disk" or not i["ops"]:
             return None
         ms = None if case["backend"] == "mem" else int(case["backend"][3:])
@@ -494,6 +583,9 @@ class C09(Prop):
         if case["kind"] == "disk":
             return {"kind": "disk", "tampers": sum(1 for s in case["steps"] if s["t"] in TAMPERS), "torn": sum(1 for s in case["steps"] if s["t"] == "crashSet"),
                     "hits": sum(1 for g in obs["gets"] if g["hit"] != {"miss": 1})}
+        if case["kind"] == "defhash":
+            return {"kind": "defhash", "pairs": len(case["pairs"]), "knobs": "+".join(sorted({k for _, _, k in case["pairs"]}))[:60],
+                    "equal_hashes": sum(1 for o in obs["pairs"] if o["same"])}
         if case["kind"] == "runs2":
             return {"kind": "runs2", "backend": case["backend"]}
         return {"kind": "runs", "backend": case["backend"], "runs": len(case["runs"]), "hits": min(obs["hits"], 10), "ops": min(len(obs["ops"]), 40) // 10 * 10}
